@@ -235,6 +235,20 @@ def run_scenario(scn: dict) -> RunContext:
         evaluator = SimEvaluator(world, scn.get("faults"), scn.get("mode"))
         ctx.evaluator = evaluator
         pm = backend.make_plugin_manager()
+        ctx.fake = None
+        if scn.get("fake") is not None:
+            from . import fakescipy
+
+            ctx.fake = fakescipy.FakeState(scn["fake"]["script"], scn["fake"]["points"])
+            fakescipy.CURRENT.append(ctx.fake)
+            fakescipy.install()
+            pm.add_plugin("optimizer", "simwrap", fakescipy.SimWrapPlugin())
+        elif scn.get("simwrap"):
+            from . import fakescipy
+
+            ctx.fake = fakescipy.FakeState([], [])
+            fakescipy.CURRENT.append(ctx.fake)
+            pm.add_plugin("optimizer", "simwrap", fakescipy.SimWrapPlugin())
         context = OptimizerContext(evaluator=evaluator, plugin_manager=pm)
         for et in EventType:
             context.add_observer(et, lambda e, ctx=ctx: ctx.on_event(e, "obs"))
@@ -244,6 +258,13 @@ def run_scenario(scn: dict) -> RunContext:
         _run_built(ctx, built, scn["configs"])
         evaluator.check_alias("end of run")
     finally:
+        if getattr(ctx, "fake", None) is not None:
+            from . import fakescipy
+
+            if fakescipy.CURRENT and fakescipy.CURRENT[-1] is ctx.fake:
+                fakescipy.CURRENT.pop()
+            if scn.get("fake") is not None:
+                fakescipy.uninstall()
         ctx.close()
     return ctx
 
